@@ -526,6 +526,10 @@ func (w *World) OpenTunnel(kind string, h http.Handler, gw *protocol.Gateway, co
 		if !ic.ReadHTTPHead() || !strings.HasPrefix(ic.HTTPHead, "HTTP/1.1 200") {
 			return c, false
 		}
+		if extra.Get("X-Verif-No-Preamble") != "" {
+			// the caller ends the tunnel before the first byte on the inbound channel
+			return c, true
+		}
 		// the preamble the gateway drains with one read before it starts parsing chunks
 		c.In.Write([]byte("preamble"))
 		vsched.WaitIdle()
